@@ -803,7 +803,7 @@ func (s2 *Stage2) checkMockTypes(mi *mockInfo) {
 	}
 	sort.Strings(extra)
 	sort.Strings(lacking)
-	s2.tob(sc, pfx+"method-set-exact", []string{"C08", "C02"}, len(extra) == 0 && len(lacking) == 0,
+	s2.tob(sc, pfx+"method-set-exact", []string{"C08", "C02", "C20"}, len(extra) == 0 && len(lacking) == 0,
 		fmt.Sprintf("unexpected methods %v, missing methods %v (with-resets=%v)", extra, lacking, sc.Resets))
 }
 
@@ -1125,6 +1125,11 @@ func (h *mockHooks) OnInvoke(e *Exec, st *State, ci ssa.CallInstruction, fn SV, 
 }
 
 func (h *mockHooks) OnForbidden(e *Exec, st *State, in ssa.Instruction, what string) {
+	if in == nil {
+		h.ob(st, "within-verified-subset", BoolLit(false), "generated function uses a construct outside the modelled subset ("+what+"): nothing is proved about this function")
+		st.aborted = "forbidden"
+		return
+	}
 	switch what {
 	case "go", "defer", "*ssa.Select", "*ssa.Send", "builtin recover":
 		h.ob(st, "no-go-defer-recover", BoolLit(false), "generated function contains "+what+" at "+e.ld.pos(in.Pos()))
